@@ -368,6 +368,9 @@ def main():
         projs = gen_projects(rng, n, grans=(3600, 3600, 1800, 900))
         if prop in ("C04", "C11", "C08"):
             projs += gen_projects(rng, n // 3, alap=True, limits=False, sub_slot=False, milestones=False)
+        if prop in ("C01", "C02", "C03", "C05", "C06", "C10"):
+            # backward (ALAP) projects, with limits and sub-slot efforts
+            projs += gen_projects(rng, n // 3, alap=True, limits=True, sub_slot=True, milestones=False)
         for k, p in enumerate(projs):
             text = render(p)
             key = f"{prop}/{SEED}/{k}"
